@@ -115,7 +115,16 @@ class World(object):
         self.tokens[tok] = obj
         return obj
 
+    flavour = 'response'
+
     def resp(self, tok):
+        # every kind of "a Response": werkzeug Response, bare BaseResponse, a *returned* HTTPException
+        if self.flavour == 'base':
+            from werkzeug.wrappers import BaseResponse
+            return self.token(tok, BaseResponse(tok))
+        if self.flavour == 'http':
+            from clastic import errors
+            return self.token(tok, errors.ImATeapot(tok))
         return self.token(tok, self.Response(tok))
 
     def run(self, fid, nxt, args):
@@ -152,8 +161,16 @@ class World(object):
             v = Sent('prov:%s:%s:req%d' % (fid, name, self.reqno))
             self.provided[(fid, name)] = v
             prov[name] = v
+        names = list(meta['provides'])
+        style = meta.get('call', 'kw')
         try:
-            ret = nxt(**prov)
+            # values may be handed to next() by keyword, positionally (declared order), or mixed
+            if style == 'pos':
+                ret = nxt(*[prov[n] for n in names])
+            elif style == 'mixed' and names:
+                ret = nxt(prov[names[0]], **dict((n, prov[n]) for n in names[1:]))
+            else:
+                ret = nxt(**prov)
         except Exception as e:
             self.trace.append(('saw-exc', fid, e))
             if b == 'swallow':
@@ -232,7 +249,8 @@ def make_mw(world, mwid, mw):
         if sig is None:
             continue
         fid = '%s.%s' % (mwid, phase)
-        meta = {'kind': 'mw', 'mwid': mwid, 'phase': phase, 'provides': list(mw.get(pl) or ())}
+        meta = {'kind': 'mw', 'mwid': mwid, 'phase': phase, 'provides': list(mw.get(pl) or ()),
+                'call': mw.get('call', 'kw')}
         flags = mw.get('flags') or {}
         if flags.get(phase) == 'next-not-first':
             f = make_raw(world, fid, sig, meta, ['%s', 'next'])
